@@ -4,6 +4,7 @@ import (
 	"bytes"
 	"fmt"
 	"sort"
+	"strings"
 
 	"github.com/sylabs/sif/v2/pkg/sif"
 )
@@ -124,6 +125,16 @@ func (o *oracleCtx) checkState(step int, ob Obs, res string) *SImage {
 	if err != nil {
 		o.add("C08", step, class, "the image written cannot be reloaded: %v", err)
 	} else {
+		if class == "" && !o.c.Hostile && !o.c.ForeignIDs {
+			o.tick("accessors")
+			for _, w := range AccessorFindings(f2, img, ob.Store) {
+				prop := "C01"
+				if !strings.HasPrefix(w, "object") {
+					prop = "C11"
+				}
+				o.add(prop, step, "", "%s", w)
+			}
+		}
 		hb, rds, mids := sif.VerifRaw(f2)
 		var rcat []byte
 		for _, r := range rds {
